@@ -87,8 +87,13 @@ def run(ck: Check, prog: Program) -> None:
                    f'`{_n(s_.node.ast)[:100]}`: {why}. A protocol error raised by a method with code 0 or message "" does not reach the '
                    f'caller with exactly its code and message')
     # "parameters that do not bind → -32602 without running it": the binder is Signature.bind over the filtered signature of THIS method
-    from .c04 import _bind_strict
+    from .c04 import _bind_strict, bind_methods, validate_always
     _bind_strict(ck, prog)
+    # ... on every path: a binder that skips the validation for some params (empty, omitted) lets a call with missing required
+    # arguments reach the method, which then fails with -32000 instead of -32602
+    for b_ in bind_methods(prog):
+        ck.functions.add(b_.qualname)
+        validate_always(ck, prog, b_)
     from .wire import ctor_precedence_problems as _cpp
     _ci = prog.cls('pjrpc.common.exceptions.JsonRpcError')
     _pp = _cpp(prog, _ci)
@@ -105,6 +110,10 @@ def run(ck: Check, prog: Program) -> None:
 
 
 MUTANTS = [
+    dict(name='validation-skipped-for-empty-params', file='pjrpc/server/dispatcher.py', nth=0,
+         find='        method_kwargs = self.validator.validate_method(\n            self.method, params, exclude=(self.context,) if self.context else (), **self.validator_args,\n        )\n',
+         replace='        method_kwargs = self.validator.validate_method(\n            self.method, params, exclude=(self.context,) if self.context else (), **self.validator_args,\n        ) if params else {}\n',
+         expect='VALIDATE-ALWAYS'),
     dict(name='swap-server-internal', file='pjrpc/server/dispatcher.py', nth=0,
          find='raise pjrpc.exceptions.ServerError() from e', replace='raise pjrpc.exceptions.InternalError() from e', expect='ERRMAP'),
     dict(name='leak-exception-text', file='pjrpc/server/dispatcher.py', nth=1,
